@@ -1,7 +1,5 @@
 //! Two-way string matching on steroids.
 
-use std::cmp::max;
-
 use memchr_rs::memchr;
 
 const SIMD_THRESHOLD: usize = 16;
@@ -67,12 +65,12 @@ pub fn find(haystack: &str, needle: &str) -> Option<usize> {
         return None;
     }
 
-    let (crit, period) = crit_period(n);
+    let (crit, _) = crit_period(n);
     let anchor = n[crit];
 
     let mut offset = 0;
 
-    while offset + nlen <= hlen {
+    while offset < hlen {
         let index = memchr(anchor, h, offset);
         if index >= hlen {
             return None;
@@ -84,12 +82,16 @@ pub fn find(haystack: &str, needle: &str) -> Option<usize> {
         }
 
         let start = index - crit;
-        if start + nlen <= hlen && &h[start..start + nlen] == n {
+        if start + nlen > hlen {
+            return None;
+        }
+        if &h[start..start + nlen] == n {
             return Some(start);
         }
 
-        let shift = max(1, period);
-        offset = start.saturating_add(shift);
+        // A later match may start right after `start`, so its anchor may sit right
+        // after `index`: resume the anchor search there (always makes progress).
+        offset = index + 1;
     }
 
     None
@@ -100,7 +102,7 @@ fn maximal_suffix(x: &[u8], rev: bool) -> (usize, usize) {
     let n = x.len();
     let (mut i, mut j, mut k, mut p) = (0, 1, 1, 1);
 
-    while j + k <= n {
+    while j + k < n {
         let ap = x[i + k];
         let a = x[j + k];
         if (a < ap && !rev) || (a > ap && rev) {
